@@ -90,6 +90,12 @@ pub fn run(line: &str) -> String {
                 peer.take();
             }
         }
+        // `z0`: descriptor number 0 is free in the receiving process while this request is handled (a daemon started with
+        // stdin closed): the first descriptor the kernel installs gets number 0. All scenario lines were read before the
+        // first scenario runs, so nothing here needs stdin; number 0 is plugged again at the end of the scenario.
+        if toks.contains(&"z0") {
+            unsafe { libc::close(0) };
+        }
         // run handle_request on a helper thread with a watchdog
         let (tx, rx) = mpsc::channel();
         let h2 = handler.clone();
@@ -233,5 +239,13 @@ pub fn run(line: &str) -> String {
     let leaked = open_idents(&objs);
     let l = if leaked.is_empty() { "-".to_string() } else { leaked.iter().map(|x| x.to_string()).collect::<Vec<_>>().join(",") };
     obs.push(format!("L={}", l));
+    // descriptor number 0 is occupied again (by /dev/null) whatever the scenario left there
+    unsafe {
+        let n = libc::open(b"/dev/null\0".as_ptr() as *const libc::c_char, libc::O_RDONLY);
+        if n > 0 {
+            libc::dup2(n, 0);
+            libc::close(n);
+        }
+    }
     obs.join(" | ")
 }
